@@ -66,7 +66,7 @@ def run(rep: Report, tier: str) -> None:
         if tier == "quick" and len(rec["ch"]) == 3 and rng.random() > 0.2:
             continue
         replay_chain(rep, rec, rng)
-    cfgs = ops.configs(rng, tier)
+    cfgs = ops.configs_deep(rng, tier)
     classes = fnlog.Classes()
     events: List[List[Any]] = []
     cfg_of: Dict[int, Dict[str, Any]] = {}
